@@ -10,7 +10,8 @@ EXHAUSTIVE = True
 RULE = ('every tier: all 256 x 256 (ToS, opcode) frames from a stranger while a mapper is active, each followed by a Discover from the '
         'mapper and one from the stranger (thorough: also from the mapper itself and with no mapper active); plus seeded histories over '
         '4 stations issuing Discover/Reset/Hello/Probe/Emit/Query/QueryLargeTlv with any ToS, commands only from the active mapper or '
-        'while none is active; non-trivial = at least one Discover was refused and one answered; distinct = distinct projected transcript')
+        'while none is active, Discover/Reset/commands arriving directly or through a bridge (Ethernet source = another station of the pool); '
+        'non-trivial = at least one Discover was refused and one answered; distinct = distinct projected transcript')
 ASSUMPTIONS = ['port contract as for C02', 'a stranger command while a mapper is active makes later arbitration unconstrained until the next Reset (property text)']
 M, S = F.STATIONS[0], F.STATIONS[1]
 
@@ -46,7 +47,7 @@ def history(rng):
             if tos <= 1 and active is None:
                 active = x
         elif c < 0.55:
-            ops.append('rx 0 ' + F.reset(x, tos=tos))
+            ops.append('rx 0 ' + F.reset(x, tos=tos, eth_src=rng.choice([None, None, rng.choice(st)])))
             if tos <= 1:
                 active = None
         elif c < 0.65:
@@ -59,14 +60,15 @@ def history(rng):
             kind = rng.choice(['emit', 'query', 'qltlv'])
             ctos = rng.choice([0, 0, 0, 1, 2, tos])
             seq = rng.choice([0, 1, 7, 65535])
+            via = rng.choice([None, None, rng.choice(st)])   # the command may arrive through a bridge: Ethernet source differs from the real source
             if kind == 'emit':
-                ops.append('rx 0 ' + F.emit(who, F.OWN, seq, [(1, 0, F.rand_mac(rng), F.rand_mac(rng))], tos=ctos))
+                ops.append('rx 0 ' + F.emit(who, F.OWN, seq, [(1, 0, F.rand_mac(rng), F.rand_mac(rng))], tos=ctos, eth_src=via))
                 opener = ctos == 0
             elif kind == 'query':
-                ops.append('rx 0 ' + F.query(who, F.OWN, seq, tos=ctos))
+                ops.append('rx 0 ' + F.query(who, F.OWN, seq, tos=ctos, eth_src=via))
                 opener = ctos == 0
             else:
-                ops.append('rx 0 ' + F.qltlv(who, F.OWN, seq, 0x11, 0, tos=ctos))
+                ops.append('rx 0 ' + F.qltlv(who, F.OWN, seq, 0x11, 0, tos=ctos, eth_src=via))
                 opener = ctos <= 1 and seq != 0
             if opener and active is None:
                 active = who
